@@ -23,6 +23,9 @@ Qed.
 Lemma ids_RT i cs : ids (RT i cs) = i :: flat_map ids cs.
 Proof. reflexivity. Qed.
 
+Lemma in_ids_RT j i cs : In j (ids (RT i cs)) <-> i = j \/ In j (flat_map ids cs).
+Proof. rewrite ids_RT. simpl. tauto. Qed.
+
 Lemma In_rid_ids r : In (rid r) (ids r).
 Proof. destruct r; rewrite ids_RT; simpl; auto. Qed.
 
@@ -49,14 +52,17 @@ Lemma perm_count (l1 l2 : list nat) :
   Permutation l1 l2 <-> forall x, count_occ Nat.eq_dec l1 x = count_occ Nat.eq_dec l2 x.
 Proof. apply Permutation_count_occ. Qed.
 
+Ltac splits := repeat match goal with |- _ /\ _ => split end.
+
 Ltac perm_hyps z :=
   repeat match goal with
-         | H : Permutation _ _ |- _ => apply perm_count in H; specialize (H z)
+         | H : Permutation _ _ |- _ =>
+             let H' := fresh in pose proof (proj1 (perm_count _ _) H z) as H'; clear H
          end.
 Ltac perm_solve :=
   let z := fresh "z" in
-  apply perm_count; intros z; perm_hyps z;
-  repeat (rewrite ?ids_RT in *; rewrite ?flat_map_app in *; rewrite ?count_occ_app in *; simpl in * );
+  apply perm_count; intros z; perm_hyps z; unfold ids in *;
+  repeat (rewrite ?flat_map_app in *; rewrite ?count_occ_app in *; simpl in * );
   repeat match goal with
          | |- context [Nat.eq_dec ?a ?b] => destruct (Nat.eq_dec a b)
          | H : context [Nat.eq_dec ?a ?b] |- _ => destruct (Nat.eq_dec a b)
@@ -134,7 +140,148 @@ Proof.
     + congruence.
 Qed.
 
+Lemma Forall2_In_r {A B} (R : A -> B -> Prop) l l' b :
+  Forall2 R l l' -> In b l' -> exists a, In a l /\ R a b.
+Proof.
+  induction 1; simpl; [tauto|]. intros [<-|Hin]; eauto.
+  destruct (IHForall2 Hin) as (a & ? & ?); eauto.
+Qed.
+
+Lemma Forall2_In_l {A B} (R : A -> B -> Prop) l l' a :
+  Forall2 R l l' -> In a l -> exists b, In b l' /\ R a b.
+Proof.
+  induction 1; simpl; [tauto|]. intros [<-|Hin]; eauto.
+  destruct (IHForall2 Hin) as (b & ? & ?); eauto.
+Qed.
+
+Lemma Forall2_impl_In {A B} (R R' : A -> B -> Prop) l l' :
+  (forall a b, In a l -> In b l' -> R a b -> R' a b) -> Forall2 R l l' -> Forall2 R' l l'.
+Proof.
+  intros H HF. induction HF; constructor.
+  - apply H; simpl; auto.
+  - apply IHHF. intros; apply H; simpl; auto.
+Qed.
+
+Lemma Forall2_perm {A B} (R : A -> B -> Prop) l l' cs :
+  Forall2 R l cs -> Permutation l' l -> exists cs', Forall2 R l' cs' /\ Permutation cs' cs.
+Proof.
+  intros HF Hp. apply Permutation_sym in Hp. revert cs HF.
+  induction Hp; intros cs HF.
+  - inversion HF; subst. exists []. split; auto.
+  - inversion HF as [|? y ? cs0 Hxy HF']; subst. destruct (IHHp _ HF') as (cs' & HF'' & Hp').
+    exists (y :: cs'). split; auto.
+  - inversion HF as [|? y1 ? cs0 Hxy HF']; subst. inversion HF' as [|? y2 ? cs1 Hxy2 HF'']; subst.
+    exists (y2 :: y1 :: cs1). split; [repeat constructor; auto|apply perm_swap].
+  - destruct (IHHp1 _ HF) as (cs1 & HF1 & Hp1'). destruct (IHHp2 _ HF1) as (cs2 & HF2 & Hp2').
+    exists cs2. split; auto. eapply Permutation_trans; eauto.
+Qed.
+
+Lemma insert_sorted_perm {A} (leb : A -> A -> bool) x l : Permutation (insert_sorted leb x l) (x :: l).
+Proof.
+  induction l; simpl; auto. destruct (leb x a); auto.
+  eapply Permutation_trans; [apply perm_skip; eauto|apply perm_swap].
+Qed.
+
+Lemma stable_sort_perm {A} (leb : A -> A -> bool) l : Permutation (stable_sort leb l) l.
+Proof.
+  unfold stable_sort. induction l; simpl; auto.
+  eapply Permutation_trans; [apply insert_sorted_perm|]. auto.
+Qed.
+
+Lemma foldM_inv {A S} (P : S -> Prop) (g : S -> A -> outcome S) l :
+  (forall s a s', P s -> g s a = Ok s' -> P s') ->
+  forall s s', P s -> foldM g l s = Ok s' -> P s'.
+Proof.
+  intros Hstep. induction l; simpl; intros s s' Hs H.
+  - injection H as <-. auto.
+  - destruct (g s a) eqn:E; simpl in H; try discriminate. eapply IHl; [|eauto]. eauto.
+Qed.
+
+(* ---- filter ------------------------------------------------------------------------------------------------ *)
+Lemma filter_id {A} (p : A -> bool) l : (forall x, In x l -> p x = true) -> filter p l = l.
+Proof.
+  induction l; simpl; auto. intros H. rewrite (H a) by auto. f_equal. apply IHl. intros; apply H; auto.
+Qed.
+
+Lemma filter_remove_first (l l1 l2 : list nat) c :
+  NoDup l -> l = l1 ++ c :: l2 -> filter (fun k => negb (Nat.eqb k c)) l = l1 ++ l2.
+Proof.
+  intros Hnd ->. apply NoDup_remove_2 in Hnd.
+  rewrite filter_app. simpl. rewrite Nat.eqb_refl. simpl.
+  rewrite !filter_id; auto.
+  - intros x Hx. destruct (Nat.eqb x c) eqn:E; auto. apply Nat.eqb_eq in E. subst.
+    exfalso. apply Hnd. apply in_or_app; auto.
+  - intros x Hx. destruct (Nat.eqb x c) eqn:E; auto. apply Nat.eqb_eq in E. subst.
+    exfalso. apply Hnd. apply in_or_app; auto.
+Qed.
+
+Lemma Forall2_filter {A B} (R : A -> B -> Prop) (p : A -> bool) (q : B -> bool) l cs :
+  Forall2 R l cs -> (forall a b, R a b -> p a = q b) -> Forall2 R (filter p l) (filter q cs).
+Proof.
+  intros HF Hpq. induction HF; simpl; auto.
+  rewrite (Hpq _ _ H). destruct (q y); auto.
+Qed.
+
+Lemma flat_map_filter_incl {A B} (f : A -> list B) (q : A -> bool) cs j :
+  In j (flat_map f (filter q cs)) -> In j (flat_map f cs).
+Proof.
+  intros H. apply in_flat_map in H as (s & Hs & Hj). apply filter_In in Hs as [Hs _].
+  apply in_flat_map. eauto.
+Qed.
+
+Lemma NoDup_flat_map_filter {A B} (f : A -> list B) (q : A -> bool) cs :
+  NoDup (flat_map f cs) -> NoDup (flat_map f (filter q cs)).
+Proof.
+  induction cs; simpl; auto. intros H. apply NoDup_app_iff in H as (H1 & H2 & H3).
+  destruct (q a); simpl; auto. apply NoDup_app_iff. splits; auto.
+  intros x Hx Hx'. eapply H3; eauto. eapply flat_map_filter_incl; eauto.
+Qed.
+
+Lemma NoDup_map_rid cs : NoDup (flat_map ids cs) -> NoDup (map rid cs).
+Proof.
+  induction cs; simpl; intros H; [constructor|].
+  apply NoDup_app_iff in H as (H1 & H2 & H3). constructor; auto.
+  intros Hin. eapply H3; [apply In_rid_ids|]. apply In_map_rid_flat; auto.
+Qed.
+
+Lemma rid_inj_in cs s s' :
+  NoDup (flat_map ids cs) -> In s cs -> In s' cs -> rid s = rid s' -> s = s'.
+Proof.
+  induction cs; simpl; [tauto|]. intros H. apply NoDup_app_iff in H as (H1 & H2 & H3).
+  intros [->|Hs] [->|Hs'] Heq; auto.
+  - exfalso. eapply H3; [apply In_rid_ids|]. rewrite Heq. apply in_flat_map. exists s'. split; auto. apply In_rid_ids.
+  - exfalso. eapply H3; [apply In_rid_ids|]. rewrite <- Heq. apply in_flat_map. exists s. split; auto. apply In_rid_ids.
+Qed.
+
+Lemma flat_map_NoDup_inj {A} (f : A -> list nat) cs s s' j :
+  NoDup (flat_map f cs) -> In s cs -> In s' cs -> In j (f s) -> In j (f s') -> s = s'.
+Proof.
+  induction cs; simpl; [tauto|]. intros H. apply NoDup_app_iff in H as (H1 & H2 & H3).
+  intros [->|Hs] [->|Hs'] Hj Hj'; auto.
+  - exfalso. eapply H3; eauto. apply in_flat_map. eauto.
+  - exfalso. eapply H3; eauto. apply in_flat_map. eauto.
+Qed.
+
+Lemma NoDup_flat_map_in {A B} (f : A -> list B) cs s : NoDup (flat_map f cs) -> In s cs -> NoDup (f s).
+Proof.
+  induction cs; simpl; [tauto|]. intros H. apply NoDup_app_iff in H as (H1 & H2 & H3).
+  intros [->|Hs]; auto.
+Qed.
+
+Lemma Forall2_singleton_l {A B} (R : A -> B -> Prop) a l :
+  Forall2 R [a] l -> exists b, l = [b] /\ R a b.
+Proof. intros H. inversion H as [|? b ? l' Hab Hnil]; subst. inversion Hnil; subst. eauto. Qed.
+
+Lemma filter_filter {A} (p q : A -> bool) l :
+  filter p (filter q l) = filter (fun x => q x && p x) l.
+Proof.
+  induction l; simpl; auto. destruct (q a); simpl; auto. destruct (p a); simpl; congruence.
+Qed.
+
 (* ---- the outcome monad ------------------------------------------------------------------------------ *)
+Lemma bind_ret {A B} (a : A) (f : A -> outcome B) : bind (Ok a) f = f a.
+Proof. reflexivity. Qed.
+
 Lemma bind_Ok {A B} (o : outcome A) (f : A -> outcome B) b :
   bind o f = Ok b -> exists a, o = Ok a /\ f a = Ok b.
 Proof. destruct o; simpl; try discriminate. eauto. Qed.
@@ -153,6 +300,10 @@ Qed.
 
 Lemma get_live (t : arena) i : live t i <-> exists n, get t i = Ok n.
 Proof. unfold live. split; intros (n & H); exists n; apply get_Ok; auto. Qed.
+
+Lemma upd_inv (t t' : arena) i f :
+  upd t i f = Ok t' -> exists n, get t i = Ok n /\ t' = replace_nth i (f n) t.
+Proof. unfold upd. intros H. apply bind_Ok in H as (n & Hg & H). injection H as <-. eauto. Qed.
 
 Lemma upd_Ok (t : arena) i f n : get t i = Ok n -> upd t i f = Ok (replace_nth i (f n) t).
 Proof. unfold upd. intros ->. reflexivity. Qed.
@@ -293,6 +444,15 @@ Inductive Rep0 (t : arena) : option nat -> nat -> rtree -> Prop :=
     (forall c, edge_get (nedges n) c <> None -> In c (nchildren n)) ->
     Rep0 t p i (RT i cs).
 
+Lemma Rep0_inv (t : arena) p i r :
+  Rep0 t p i r ->
+  exists n cs, r = RT i cs /\ nth_error t i = Some n /\ ndeleted n = false /\ nid n = i /\
+    nparent n = p /\
+    Forall2 (fun c r => Rep0 t (Some i) c r) (nchildren n) cs /\
+    (forall c nc, In c (nchildren n) -> nth_error t c = Some nc -> edge_get (nedges n) c = npedge nc) /\
+    (forall c, edge_get (nedges n) c <> None -> In c (nchildren n)).
+Proof. intros H. inversion H; subst. exists n, cs. repeat split; auto. Qed.
+
 Lemma Rep0_rid (t : arena) p i r : Rep0 t p i r -> rid r = i.
 Proof. intros H. inversion H; auto. Qed.
 
@@ -302,18 +462,425 @@ Proof. induction 1; simpl; auto. f_equal; auto. symmetry. eapply Rep0_rid; eauto
 
 Lemma Rep_Rep0 (t : arena) : forall r p d i, Rep t p d i r -> Rep0 t p i r.
 Proof.
-  induction r using rtree_ind'. intros p d j HR. inversion HR; subst.
+  induction r using rtree_ind'. intros p d j HR.
+  destruct (Rep_inv _ _ _ _ _ HR) as (n & cs' & Heq & Hn & Hdel & Hid & Hp & Hd & HF & He1 & He2).
+  injection Heq as -> ->.
   econstructor; eauto.
-  clear - H H7. revert H7. generalize (nchildren n). induction H; intros l HF; inversion HF; subst; constructor; eauto.
+  eapply Forall2_impl_In; [|eassumption]. simpl. intros a b _ Hb HRb.
+  rewrite Forall_forall in H. eapply H; eauto.
 Qed.
 
 Lemma Rep0_ids_live (t : arena) : forall r p i j, Rep0 t p i r -> In j (ids r) -> live t j.
 Proof.
-  induction r using rtree_ind'. intros p k j HR Hin. inversion HR; subst.
+  induction r using rtree_ind'. intros p k j HR Hin.
+  destruct (Rep0_inv _ _ _ _ HR) as (n & cs' & Heq & Hn & Hdel & Hid & Hp & HF & He1 & He2).
+  injection Heq as -> ->.
   rewrite ids_RT in Hin. destruct Hin as [<-|Hin]; [exists n; auto|].
   apply in_flat_map in Hin as (c & Hc & Hj).
   rewrite Forall_forall in H.
-  destruct (Forall2_in_r _ _ _ _ Hc H6) as (k' & _ & Hk') || idtac.
-Abort.
+  destruct (Forall2_In_r _ _ _ _ HF Hc) as (k' & _ & Hk'). eapply H; eauto.
+Qed.
+
+Lemma Rep_ids_live (t : arena) r p d i j : Rep t p d i r -> In j (ids r) -> live t j.
+Proof. intros H. eapply Rep0_ids_live. eapply Rep_Rep0; eauto. Qed.
+
+Lemma live_lt (t : arena) j : live t j -> j < length t.
+Proof. intros (n & H & _). eapply nth_error_Some_lt; eauto. Qed.
+
+Lemma Rep0_ids_lt (t : arena) r p i j : Rep0 t p i r -> In j (ids r) -> j < length t.
+Proof. intros. eapply live_lt, Rep0_ids_live; eauto. Qed.
+
+Lemma Rep0_height_fuel (t : arena) r p i : Rep0 t p i r -> NoDup (ids r) -> rheight r < fuel_of t.
+Proof.
+  intros HR Hnd. unfold fuel_of. apply Nat.lt_succ_r.
+  etransitivity; [apply rheight_le_rsize|]. rewrite rsize_ids.
+  apply NoDup_bounded_length; auto. intros. eapply Rep0_ids_lt; eauto.
+Qed.
+
+(* ---- frame ---------------------------------------------------------------------------------------------- *)
+Lemma Rep0_frame (t t' : arena) : forall r p i,
+  Rep0 t p i r -> (forall j, In j (ids r) -> nth_error t' j = nth_error t j) -> Rep0 t' p i r.
+Proof.
+  induction r using rtree_ind'. intros p j HR Hfr.
+  destruct (Rep0_inv _ _ _ _ HR) as (n & cs' & Heq & Hn & Hdel & Hid & Hp & HF & He1 & He2).
+  injection Heq as -> ->.
+  pose proof (Forall2_Rep0_rid _ _ _ _ HF) as Hch.
+  assert (Hcin : forall c, In c (nchildren n) -> In c (ids (RT j cs'))).
+  { intros c Hc. rewrite ids_RT. right. apply In_map_rid_flat. congruence. }
+  econstructor; eauto.
+  - rewrite Hfr; auto. rewrite ids_RT; simpl; auto.
+  - eapply Forall2_impl_In; [|eassumption]. simpl. intros a b _ Hb HRb.
+    rewrite Forall_forall in H. eapply H; eauto.
+    intros k Hk. apply Hfr. rewrite ids_RT. right. apply in_flat_map. eauto.
+  - intros c nc Hc Hnc. rewrite Hfr in Hnc; auto.
+Qed.
+
+Lemma Rep_frame (t t' : arena) : forall r p d i,
+  Rep t p d i r -> (forall j, In j (ids r) -> nth_error t' j = nth_error t j) -> Rep t' p d i r.
+Proof.
+  induction r using rtree_ind'. intros p d j HR Hfr.
+  destruct (Rep_inv _ _ _ _ _ HR) as (n & cs' & Heq & Hn & Hdel & Hid & Hp & Hd & HF & He1 & He2).
+  injection Heq as -> ->.
+  pose proof (Forall2_Rep_rid _ _ _ _ _ HF) as Hch.
+  assert (Hcin : forall c, In c (nchildren n) -> In c (ids (RT j cs'))).
+  { intros c Hc. rewrite ids_RT. right. apply In_map_rid_flat. congruence. }
+  econstructor; eauto.
+  - rewrite Hfr; auto. rewrite ids_RT; simpl; auto.
+  - eapply Forall2_impl_In; [|eassumption]. simpl. intros a b _ Hb HRb.
+    rewrite Forall_forall in H. eapply H; eauto.
+    intros k Hk. apply Hfr. rewrite ids_RT. right. apply in_flat_map. eauto.
+  - intros c nc Hc Hnc. rewrite Hfr in Hnc; auto.
+Qed.
+
+Lemma Forall2_Rep_frame (t t' : arena) p d l cs :
+  Forall2 (fun c r => Rep t p d c r) l cs ->
+  (forall j, In j (flat_map ids cs) -> nth_error t' j = nth_error t j) ->
+  Forall2 (fun c r => Rep t' p d c r) l cs.
+Proof.
+  intros HF Hfr. eapply Forall2_impl_In; [|eassumption]. simpl. intros a b _ Hb HRb.
+  eapply Rep_frame; eauto. intros. apply Hfr. apply in_flat_map; eauto.
+Qed.
+
+Lemma Forall2_Rep0_frame (t t' : arena) p l cs :
+  Forall2 (fun c r => Rep0 t p c r) l cs ->
+  (forall j, In j (flat_map ids cs) -> nth_error t' j = nth_error t j) ->
+  Forall2 (fun c r => Rep0 t' p c r) l cs.
+Proof.
+  intros HF Hfr. eapply Forall2_impl_In; [|eassumption]. simpl. intros a b _ Hb HRb.
+  eapply Rep0_frame; eauto. intros. apply Hfr. apply in_flat_map; eauto.
+Qed.
+
+(* ---- depth recomputation ---------------------------------------------------------------------------------- *)
+Definition depth_only (t t' : arena) : Prop :=
+  forall j n, nth_error t j = Some n -> exists d', nth_error t' j = Some (set_ndepth n d').
+
+Lemma set_ndepth_id (n : node) : set_ndepth n (ndepth n) = n.
+Proof. destruct n; reflexivity. Qed.
+
+Lemma depth_only_refl t : depth_only t t.
+Proof. intros j n H. exists (ndepth n). rewrite set_ndepth_id. auto. Qed.
+
+Lemma depth_only_trans t1 t2 t3 : depth_only t1 t2 -> depth_only t2 t3 -> depth_only t1 t3.
+Proof.
+  intros H1 H2 j n Hn. destruct (H1 _ _ Hn) as (d1 & Hd1). destruct (H2 _ _ Hd1) as (d2 & Hd2).
+  exists d2. rewrite Hd2. reflexivity.
+Qed.
+
+Lemma depth_only_replace t j n d :
+  nth_error t j = Some n -> depth_only t (replace_nth j (set_ndepth n d) t).
+Proof.
+  intros Hn k m Hm. destruct (Nat.eq_dec k j) as [->|Hne].
+  - exists d. erewrite nth_error_replace_nth_eq'; eauto. congruence.
+  - exists (ndepth m). rewrite nth_error_replace_nth_neq, set_ndepth_id; auto.
+Qed.
+
+Lemma depth_only_live t t' j : depth_only t t' -> live t j -> live t' j.
+Proof. intros H (n & Hn & Hd). destruct (H _ _ Hn) as (d' & Hd'). exists (set_ndepth n d'). auto. Qed.
+
+Lemma rheight_child c cs :
+  In c cs -> rheight c <= fold_right (fun c acc => Nat.max (rheight c) acc) 0 cs.
+Proof. induction cs; simpl; [tauto|]. intros [->|H]; [lia|]. specialize (IHcs H). lia. Qed.
+
+Definition reset_spec (r : rtree) : Prop :=
+  forall fuel (t : arena) p i d,
+    Rep0 t p i r -> NoDup (ids r) -> rheight r < fuel ->
+    exists t', reset_depth_f fuel t i d = Ok t' /\ Rep t' p d i r /\ length t' = length t /\
+      (forall j, ~ In j (ids r) -> nth_error t' j = nth_error t j) /\ depth_only t t'.
+
+Lemma reset_children_spec f i d cs :
+  Forall reset_spec cs ->
+  forall ks (t1 : arena),
+    Forall2 (fun c r => Rep0 t1 (Some i) c r) ks cs -> NoDup (flat_map ids cs) ->
+    Forall (fun r => rheight r < f) cs ->
+    exists t', foldM (fun acc c => reset_depth_f f acc c (d + 1)) ks t1 = Ok t' /\
+      Forall2 (fun c r => Rep t' (Some i) (S d) c r) ks cs /\ length t' = length t1 /\
+      (forall j, ~ In j (flat_map ids cs) -> nth_error t' j = nth_error t1 j) /\ depth_only t1 t'.
+Proof.
+  induction 1 as [|c cs Hc Hcs IH]; intros ks t1 HF Hnd Hh; inversion HF as [|x ? l ? HRx HFl]; subst.
+  - exists t1. simpl. splits; auto. apply depth_only_refl.
+  - simpl in Hnd. apply NoDup_app_iff in Hnd as (Hnd1 & Hnd2 & Hdisj).
+    inversion Hh as [|? ? Hhc Hhcs]; subst.
+    destruct (Hc f t1 (Some i) x (d + 1) HRx Hnd1 Hhc) as (t2 & Hr & HR2 & Hlen2 & Hfr2 & Hdo2).
+    assert (HF2 : Forall2 (fun c r => Rep0 t2 (Some i) c r) l cs).
+    { eapply Forall2_Rep0_frame; eauto. intros j Hj. apply Hfr2. intros Hj'. eapply Hdisj; eauto. }
+    destruct (IH l t2 HF2 Hnd2 Hhcs) as (t3 & Hr3 & HR3 & Hlen3 & Hfr3 & Hdo3).
+    exists t3. simpl. rewrite Hr. simpl. splits; auto.
+    + constructor; auto. replace (d + 1) with (S d) in HR2 by lia.
+      eapply Rep_frame; eauto.
+    + congruence.
+    + intros j Hj. rewrite Hfr3, Hfr2; auto; intros Hj'; apply Hj; apply in_or_app; auto.
+    + eapply depth_only_trans; eauto.
+Qed.
+
+Lemma reset_depth_f_spec : forall r, reset_spec r.
+Proof.
+  induction r using rtree_ind'. intros fuel t p j d HR Hnd Hf.
+  destruct (Rep0_inv _ _ _ _ HR) as (n & cs' & Heq & Hn & Hdel & Hid & Hp & HF & He1 & He2).
+  injection Heq as -> ->.
+  destruct fuel as [|f]; [lia|]. simpl reset_depth_f.
+  assert (Hg : get t j = Ok n) by (apply get_Ok; auto). rewrite Hg. simpl.
+  rewrite ids_RT in Hnd. apply NoDup_cons_iff in Hnd as [Hj Hnd'].
+  set (t1 := replace_nth j (set_ndepth n d) t).
+  assert (Hfr1 : forall k, k <> j -> nth_error t1 k = nth_error t k).
+  { intros. unfold t1. apply nth_error_replace_nth_neq; auto. }
+  assert (HF1 : Forall2 (fun c r => Rep0 t1 (Some j) c r) (nchildren n) cs').
+  { eapply Forall2_Rep0_frame; eauto. intros k Hk. apply Hfr1. intros ->. auto. }
+  assert (Hh : Forall (fun r => rheight r < f) cs').
+  { apply Forall_forall. intros c Hc. simpl in Hf. pose proof (rheight_child c cs' Hc). lia. }
+  destruct (reset_children_spec f j d cs' H (nchildren n) t1 HF1 Hnd' Hh) as (t' & Hr & HR' & Hlen & Hfr & Hdo).
+  assert (Hdo1 : depth_only t t1) by (apply depth_only_replace; auto).
+  exists t'. splits; auto.
+  - apply Rep_node with (n := set_ndepth n d); simpl; auto.
+    + rewrite Hfr; auto. unfold t1. eapply nth_error_replace_nth_eq'; eauto.
+    + intros c nc Hc Hnc.
+      pose proof (Forall2_Rep0_rid _ _ _ _ HF) as Hch.
+      assert (Hlc : live t c).
+      { eapply Rep0_ids_live; eauto. rewrite ids_RT. right. apply In_map_rid_flat. congruence. }
+      destruct Hlc as (nc0 & Hnc0 & _).
+      destruct (depth_only_trans _ _ _ Hdo1 Hdo _ _ Hnc0) as (d' & Hd').
+      rewrite Hd' in Hnc. injection Hnc as <-. simpl. eauto.
+  - rewrite Hlen. apply replace_nth_length.
+  - intros k Hk.
+    assert (k <> j /\ ~ In k (flat_map ids cs')) as [? ?]
+      by (split; intro Hx; apply Hk; [subst; left; reflexivity | right; exact Hx]).
+    rewrite Hfr, Hfr1; auto.
+  - eapply depth_only_trans; eauto.
+Qed.
+
+(* ---- surgery: replacing the subtree rooted at x ------------------------------------------------------------- *)
+Lemma Rep_surgery (t : arena) x : forall r p d i,
+  Rep t p d i r -> In x (ids r) -> NoDup (ids r) ->
+  exists sx px dx rest,
+    Rep t px dx x sx /\ Permutation (ids r) (ids sx ++ rest) /\ (i = x \/ In i rest) /\
+    (i = x -> px = p /\ dx = d) /\
+    forall (t' : arena) sx',
+      (forall j, In j rest -> nth_error t' j = nth_error t j) ->
+      Rep t' px dx x sx' ->
+      (forall n n', nth_error t x = Some n -> nth_error t' x = Some n' -> npedge n' = npedge n) ->
+      exists r', Rep t' p d i r' /\ Permutation (ids r') (ids sx' ++ rest).
+Proof.
+  induction r using rtree_ind'. intros p d j HR Hin Hnd.
+  destruct (Rep_inv _ _ _ _ _ HR) as (n & cs' & Heq & Hn & Hdel & Hid & Hp & Hd & HF & He1 & He2).
+  injection Heq as -> ->.
+  destruct (Nat.eq_dec j x) as [->|Hne].
+  - exists (RT x cs'), p, d, []. splits; auto.
+    + rewrite app_nil_r; auto.
+    + intros t' sx' _ HR' _. exists sx'. split; auto. rewrite app_nil_r; auto.
+  - rewrite ids_RT in Hin, Hnd. destruct Hin as [?|Hin]; [congruence|].
+    apply in_flat_map in Hin as (c & Hc & Hxc).
+    rewrite Forall_forall in H. pose proof (H c Hc) as IHc.
+    apply in_split in Hc as (l1 & l2 & ->).
+    apply Forall2_app_inv_r in HF as (k1 & k2' & HF1 & HF2 & Hks).
+    inversion HF2 as [|kc ? k2 ? HRc HF2' Hk2 Hcl]. clear HF2. rewrite <- Hk2 in Hks. clear Hk2 k2'.
+    apply NoDup_cons_iff in Hnd as [Hj Hnd]. rewrite flat_map_app in Hnd, Hj. simpl in Hnd, Hj.
+    apply NoDup_app_iff in Hnd as (Hnd1 & Hnd23 & Hd1).
+    apply NoDup_app_iff in Hnd23 as (Hndc & Hnd2 & Hd2).
+    destruct (IHc _ _ _ HRc Hxc Hndc) as (sx & px & dx & restc & HRx & Hperm & Hkc & Hpx & Hk).
+    exists sx, px, dx, (j :: flat_map ids l1 ++ flat_map ids l2 ++ restc). splits; auto.
+    + rewrite ids_RT, flat_map_app. simpl. clear - Hperm. perm_solve.
+    + simpl; auto.
+    + congruence.
+    + intros t' sx' Hfr HR' Hpe.
+      destruct (Hk t' sx') as (c' & HRc' & Hperm'); auto.
+      { intros k Hk'. apply Hfr. right. apply in_or_app. right. apply in_or_app. auto. }
+      exists (RT j (l1 ++ c' :: l2)). split.
+      * apply Rep_node with (n := n); auto.
+        -- rewrite Hfr; simpl; auto.
+        -- rewrite Hks. apply Forall2_app; [|constructor; auto].
+           ++ eapply Forall2_Rep_frame; eauto. intros k Hk'. apply Hfr. right. apply in_or_app; auto.
+           ++ eapply Forall2_Rep_frame; eauto. intros k Hk'. apply Hfr. right.
+              apply in_or_app. right. apply in_or_app; auto.
+        -- intros c0 nc Hc0 Hnc. rewrite Hks in Hc0.
+           assert (Hcase : In c0 (flat_map ids l1 ++ flat_map ids l2 ++ restc) \/ c0 = x).
+           { apply in_app_or in Hc0 as [Hc0|[<-|Hc0]].
+             - left. apply in_or_app. left. apply In_map_rid_flat.
+               rewrite <- (Forall2_Rep_rid _ _ _ _ _ HF1). auto.
+             - destruct Hkc; auto. left. apply in_or_app. right. apply in_or_app; auto.
+             - left. apply in_or_app. right. apply in_or_app. left. apply In_map_rid_flat.
+               rewrite <- (Forall2_Rep_rid _ _ _ _ _ HF2'). auto. }
+           rewrite <- Hks in Hc0.
+           destruct Hcase as [Hr| ->].
+           ++ rewrite Hfr in Hnc by (right; auto). eauto.
+           ++ destruct (Rep_live _ _ _ _ _ HRx) as (nx & Hnx & _).
+              rewrite (Hpe _ _ Hnx Hnc). eauto.
+      * rewrite ids_RT, flat_map_app. simpl. clear - Hperm'. perm_solve.
+Qed.
+
+Lemma Rep_parent (t : arena) x : forall r p d i,
+  Rep t p d i r -> In x (ids r) -> x <> i ->
+  exists P nP nx, In P (ids r) /\ nth_error t P = Some nP /\ ndeleted nP = false /\
+    nth_error t x = Some nx /\ nparent nx = Some P /\ In x (nchildren nP).
+Proof.
+  induction r using rtree_ind'. intros p d j HR Hin Hne.
+  destruct (Rep_inv _ _ _ _ _ HR) as (n & cs' & Heq & Hn & Hdel & Hid & Hp & Hd & HF & He1 & He2).
+  injection Heq as -> ->.
+  rewrite ids_RT in Hin. destruct Hin as [?|Hin]; [congruence|].
+  apply in_flat_map in Hin as (c & Hc & Hxc).
+  destruct (Forall2_In_r _ _ _ _ HF Hc) as (kc & Hkc & HRc).
+  destruct (Nat.eq_dec x kc) as [->|Hne'].
+  - destruct (Rep_inv _ _ _ _ _ HRc) as (nc & ? & _ & Hnc & _ & _ & Hpc & _).
+    exists j, n, nc. splits; auto. rewrite ids_RT; simpl; auto.
+  - rewrite Forall_forall in H.
+    destruct (H c Hc _ _ _ HRc Hxc Hne') as (P & nP & nx & HP & ?).
+    exists P, nP, nx. split; auto. rewrite ids_RT. right. apply in_flat_map; eauto.
+Qed.
+
+Lemma Rep_root_unique (t : arena) r p d i x nx :
+  Rep t p d i r -> In x (ids r) -> nth_error t x = Some nx -> nparent nx = None -> x = i.
+Proof.
+  intros HR Hin Hnx Hp. destruct (Nat.eq_dec x i); auto.
+  destruct (Rep_parent _ _ _ _ _ _ HR Hin n) as (P & nP & nx' & _ & _ & _ & Hnx' & Hp' & _). congruence.
+Qed.
+
+Lemma Rep_sub (t : arena) x : forall r p d i,
+  Rep t p d i r -> In x (ids r) -> exists px dx sx, Rep t px dx x sx /\ incl (ids sx) (ids r).
+Proof.
+  induction r using rtree_ind'. intros p d j HR Hin.
+  destruct (Rep_inv _ _ _ _ _ HR) as (n & cs' & Heq & Hn & Hdel & Hid & Hp & Hd & HF & He1 & He2).
+  injection Heq as -> ->.
+  rewrite ids_RT in Hin. destruct Hin as [->|Hin].
+  - exists p, d, (RT x cs'). split; auto. apply incl_refl.
+  - apply in_flat_map in Hin as (c & Hc & Hxc).
+    destruct (Forall2_In_r _ _ _ _ HF Hc) as (kc & Hkc & HRc).
+    rewrite Forall_forall in H. destruct (H c Hc _ _ _ HRc Hxc) as (px & dx & sx & HRx & Hincl).
+    exists px, dx, sx. split; auto. intros k Hk. rewrite ids_RT. right. apply in_flat_map. eauto.
+Qed.
+
+Lemma Rep_ids_nid (t : arena) r p d i x n :
+  Rep t p d i r -> In x (ids r) -> nth_error t x = Some n -> nid n = x.
+Proof.
+  intros HR Hin Hn. destruct (Rep_sub _ _ _ _ _ _ HR Hin) as (px & dx & sx & HRx & _).
+  destruct (Rep_inv _ _ _ _ _ HRx) as (n' & ? & _ & Hn' & _ & Hid & _). congruence.
+Qed.
+
+Lemma depth_only_live_inv (t t' : arena) j :
+  depth_only t t' -> length t' = length t -> live t' j -> live t j.
+Proof.
+  intros Hdo Hlen (n' & Hn' & Hd). pose proof (nth_error_Some_lt _ _ _ Hn') as Hlt. rewrite Hlen in Hlt.
+  destruct (nth_error t j) as [n|] eqn:E; [|apply nth_error_None in E; lia].
+  destruct (Hdo _ _ E) as (d' & Hd'). rewrite Hd' in Hn'. injection Hn' as <-. exists n. auto.
+Qed.
+
+(* ---- the strengthened invariant --------------------------------------------------------------------------- *)
+Definition SortedEdges (t : arena) : Prop := forall i n, nth_error t i = Some n -> ksorted (nedges n).
+Definition WFS (t : arena) : Prop := WF t /\ SortedEdges t.
+
+Lemma WFS_WF t : WFS t -> WF t.
+Proof. intros [? ?]; auto. Qed.
+
+Lemma SortedEdges_replace (t : arena) k x :
+  SortedEdges t -> ksorted (nedges x) -> SortedEdges (replace_nth k x t).
+Proof.
+  intros Hs Hx j n Hn. destruct (Nat.eq_dec j k) as [->|Hne].
+  - destruct (nth_error t k) eqn:E.
+    + erewrite nth_error_replace_nth_eq' in Hn; eauto. congruence.
+    + apply nth_error_Some_lt in Hn. rewrite replace_nth_length in Hn.
+      apply nth_error_None in E. lia.
+  - rewrite nth_error_replace_nth_neq in Hn; eauto.
+Qed.
+
+Lemma SortedEdges_app (t : arena) x : SortedEdges t -> ksorted (nedges x) -> SortedEdges (t ++ [x]).
+Proof.
+  intros Hs Hx j n Hn. destruct (Nat.lt_ge_cases j (length t)).
+  - rewrite nth_error_app1 in Hn; eauto.
+  - rewrite nth_error_app2 in Hn; auto. destruct (j - length t) as [|[|k]]; simpl in Hn; try discriminate.
+    congruence.
+Qed.
+
+Lemma SortedEdges_depth_only (t t' : arena) :
+  depth_only t t' -> length t' = length t -> SortedEdges t -> SortedEdges t'.
+Proof.
+  intros Hdo Hlen Hs j n' Hn'. pose proof (nth_error_Some_lt _ _ _ Hn') as Hlt. rewrite Hlen in Hlt.
+  destruct (nth_error t j) as [n|] eqn:E; [|apply nth_error_None in E; lia].
+  destruct (Hdo _ _ E) as (d' & Hd'). rewrite Hd' in Hn'. injection Hn' as <-. simpl. eauto.
+Qed.
+
+Lemma ksorted_nil : ksorted (@nil (nat * L)).
+Proof. constructor. Qed.
+
+Lemma WF_intro_perm (t' : arena) root r' sx' rest :
+  Rep t' None 0 root r' -> Permutation (ids r') (ids sx' ++ rest) ->
+  NoDup (ids sx') -> NoDup rest -> (forall j, In j (ids sx') -> ~ In j rest) ->
+  (forall j, live t' j -> In j (ids sx') \/ In j rest) -> WF t'.
+Proof.
+  intros HR Hperm Hnd1 Hnd2 Hdisj Hlive. right. exists root, r'. splits; auto.
+  - eapply Permutation_NoDup; [apply Permutation_sym; eauto|]. apply NoDup_app_iff. auto.
+  - intros j Hj. eapply Permutation_in; [apply Permutation_sym; eauto|]. apply in_or_app. auto.
+Qed.
+
+Lemma perm_NoDup_split (l l1 l2 : list nat) :
+  Permutation l (l1 ++ l2) -> NoDup l -> NoDup l1 /\ NoDup l2 /\ (forall x, In x l1 -> ~ In x l2).
+Proof. intros Hp Hnd. apply NoDup_app_iff. eapply Permutation_NoDup; eauto. Qed.
+
+(* WF-level packaging of the surgery lemma: editing the subtree rooted at a live node P *)
+Lemma WF_edit (t : arena) P :
+  WF t -> live t P ->
+  exists root r sx px dx rest,
+    Rep t None 0 root r /\ NoDup (ids r) /\ (forall i, live t i -> In i (ids r)) /\
+    Rep t px dx P sx /\ Permutation (ids r) (ids sx ++ rest) /\
+    NoDup (ids sx) /\ NoDup rest /\ (forall j, In j (ids sx) -> ~ In j rest) /\
+    (forall j, In j rest -> live t j) /\ (root = P \/ In root rest) /\
+    forall (t' : arena) sx',
+      (forall j, In j rest -> nth_error t' j = nth_error t j) ->
+      Rep t' px dx P sx' ->
+      (forall n n', nth_error t P = Some n -> nth_error t' P = Some n' -> npedge n' = npedge n) ->
+      NoDup (ids sx') -> (forall j, In j (ids sx') -> ~ In j rest) ->
+      (forall j, live t' j -> In j (ids sx') \/ In j rest) ->
+      WF t'.
+Proof.
+  intros [Hno|(root & r & HR & Hnd & Hlive)] HP; [exfalso; eapply Hno; eauto|].
+  destruct (Rep_surgery t P r None 0 root HR (Hlive _ HP) Hnd)
+    as (sx & px & dx & rest & HRx & Hperm & Hroot & _ & Hk).
+  destruct (perm_NoDup_split _ _ _ Hperm Hnd) as (Hnd1 & Hnd2 & Hdisj).
+  exists root, r, sx, px, dx, rest. splits; auto.
+  - intros j Hj. eapply (Rep_ids_live _ _ _ _ _ _ HR). eapply Permutation_in; [apply Permutation_sym; eauto|].
+    apply in_or_app; auto.
+  - intros t' sx' Hfr HR' Hpe Hnd' Hdisj' Hlive'.
+    destruct (Hk t' sx' Hfr HR' Hpe) as (r' & HRr' & Hperm').
+    eapply WF_intro_perm; eauto.
+Qed.
+
+Lemma WF_node_facts (t : arena) P nP :
+  WF t -> nth_error t P = Some nP -> ndeleted nP = false ->
+  NoDup (nchildren nP) /\ (forall c, In c (nchildren nP) -> live t c /\ c <> P) /\
+  (forall c, edge_get (nedges nP) c <> None -> In c (nchildren nP)) /\ nid nP = P.
+Proof.
+  intros Hwf HnP HdP. assert (HlP : live t P) by (exists nP; auto).
+  destruct (WF_edit t P Hwf HlP)
+    as (root & r & sP & pp & dp & rest & _ & _ & _ & HRP & _ & HndP & _).
+  destruct (Rep_inv _ _ _ _ _ HRP) as (nP0 & cs & -> & HnP0 & _ & FidP & _ & _ & HF & He1 & He2).
+  assert (nP0 = nP) by congruence. subst nP0.
+  rewrite ids_RT in HndP. apply NoDup_cons_iff in HndP as [HPn Hndcs].
+  pose proof (Forall2_Rep_rid _ _ _ _ _ HF) as Hch.
+  splits; auto.
+  - rewrite Hch. apply NoDup_map_rid. auto.
+  - intros c Hc. assert (Hcf : In c (flat_map ids cs)) by (apply In_map_rid_flat; congruence).
+    split; [|intros ->; auto].
+    eapply (Rep_ids_live _ _ _ _ _ _ HRP). apply in_ids_RT. auto.
+Qed.
+
+Lemma WF_parent_of (t : arena) c n pid :
+  WF t -> get t c = Ok n -> nparent n = Some pid ->
+  exists nP, get t pid = Ok nP /\ In c (nchildren nP).
+Proof.
+  intros Hwf Hg Hp. apply get_Ok in Hg as [Hn Hd]. assert (Hl : live t c) by (exists n; auto).
+  destruct Hwf as [Hno|(root & r & HR & Hnd & Hlive)]; [exfalso; eapply Hno; eauto|].
+  pose proof (Hlive _ Hl) as Hcr.
+  assert (Hne : c <> root).
+  { intros ->. destruct (Rep_inv _ _ _ _ _ HR) as (n0 & ? & _ & Hn0 & _ & _ & Hp0 & _). congruence. }
+  destruct (Rep_parent _ _ _ _ _ _ HR Hcr Hne) as (P & nP & nx & _ & HnP & HdP & Hnx & Hpx & Hin).
+  assert (nx = n) by congruence. subst nx. assert (P = pid) by congruence. subst P.
+  exists nP. split; auto. apply get_Ok; auto.
+Qed.
+
+Lemma WF_root_of (t : arena) c n c' n' :
+  WF t -> get t c = Ok n -> nparent n = None -> get t c' = Ok n' -> nparent n' = None -> c = c'.
+Proof.
+  intros Hwf Hg Hp Hg' Hp'. apply get_Ok in Hg as [Hn Hd]. apply get_Ok in Hg' as [Hn' Hd'].
+  assert (Hl : live t c) by (exists n; auto). assert (Hl' : live t c') by (exists n'; auto).
+  destruct Hwf as [Hno|(root & r & HR & Hnd & Hlive)]; [exfalso; eapply Hno; eauto|].
+  rewrite (Rep_root_unique _ _ _ _ _ _ _ HR (Hlive _ Hl) Hn Hp).
+  rewrite (Rep_root_unique _ _ _ _ _ _ _ HR (Hlive _ Hl') Hn' Hp'). reflexivity.
+Qed.
 
 End RepLib.
